@@ -184,10 +184,9 @@ Theorem C06_refs_local_same_var_partial : forall P w f name line col v o,
 Proof. exact (refs_local_same_var MRefs). Qed.
 Print Assumptions C06_refs_local_same_var_partial.
 
-(* the statement aimed at.  Proved below: tr_clean from Laid (C06_laid_position_clean, with the syntactic guard
-   no_funcstat instead of "no CB4 tag") and decl_self_ok for every chunk (Proofs/TraverseBindSpecDecls.v).
-   Missing: `Laid P -> decl_layout_ok`, no_funcstat weakened to the CB4 tag, and C05 (the position resolver returns
-   the declaration Lua binds the cursor's occurrence to) *)
+(* the statement aimed at.  Proved below: tr_clean from Laid and classA_ok (C06_laid_position_clean) and decl_self_ok
+   for every chunk (Proofs/TraverseBindSpecDecls.v).  Missing: `Laid P -> decl_layout_ok`, and C05 (the position
+   resolver returns the declaration Lua binds the cursor's occurrence to; In o (bind_file P) for the cursor's o) *)
 Definition C06_refs_local_full : Prop := forall P w f name line col v o,
   in_fragment P = true -> Laid P -> classA_ok (bind_file P) name = true ->
   resolve_at w f (analyse P) name line col = TLocal v -> s_bind o = BLocal (v_loc v) ->
@@ -207,37 +206,53 @@ Example C06_local_guards_nonvacuous :
 Proof. vm_compute. repeat split; reflexivity. Qed.
 
 (* ---- the replayed guard tr_clean discharged from the layout hypothesis of DESIGN 5 (Laid) ----
-   no_funcstat P n (boolean, syntactic): the chunk contains no statement `function n(...)`; on a local declared without a
-   value that statement is exactly class B4 (witness C06_B4_forward_decl_refuted), so this guard implies "no look-up of n
-   is hit by B4" but is stronger than "no occurrence of n is tagged CB4". *)
-From LH Require Import Proofs.TraverseBindLaidLoops Proofs.TraverseBindLaidMain Proofs.TraverseBindLaid.
+   Laid alone gives the FIRST look-up of every name (tr_clean1, no further guard); the look-up after cgAssignStat's
+   re-pointing is clean for every name none of whose occurrences carries the tags CB3 / CB4 (classA_ok). *)
+From LH Require Import Proofs.TraverseBindLaidLoops Proofs.TraverseBindLaidMain Proofs.TraverseBindClean1
+  Proofs.TraverseBindLaid1Main Proofs.TraverseBindB4 Proofs.TraverseBindLaid.
 
-(* IsCorrectPosition's Loc test agrees with program order on every Laid chunk of the fragment *)
+(* IsCorrectPosition's Loc test agrees with program order on every Laid chunk of the fragment (first look-ups) *)
+Theorem C06_laid_first_lookups_clean : forall W P n,
+  in_fragment P = true -> tb_shape P = true -> laid_b W P = true -> tr_clean1 P n = true.
+Proof. exact laid_tr_clean1. Qed.
+Print Assumptions C06_laid_first_lookups_clean.
+
+(* ... and all look-ups of a name outside the classes B3 / B4 *)
 Theorem C06_laid_position_clean : forall W P n,
+  in_fragment P = true -> tb_shape P = true -> laid_b W P = true -> classA_ok (bind_file P) n = true ->
+  tr_clean P n = true.
+Proof. exact laid_classA_clean. Qed.
+Print Assumptions C06_laid_position_clean.
+
+(* the same with the syntactic guard "no statement `function n(...)`" instead of the tags *)
+Theorem C06_laid_position_clean_syntactic : forall W P n,
   in_fragment P = true -> tb_shape P = true -> laid_b W P = true -> no_funcstat P n = true ->
   tr_clean P n = true.
 Proof. exact laid_tr_clean. Qed.
-Print Assumptions C06_laid_position_clean.
+Print Assumptions C06_laid_position_clean_syntactic.
 
+(* the core lemma: on every Laid chunk of the fragment the traversal resolver agrees with the reference binder at every
+   occurrence whose name is outside the classes B3 / B4 (one-to-one correspondence of the occurrences; o_res = Some d
+   <-> s_bind = BLocal d, global otherwise) *)
 Theorem C06_traversal_is_binder_laid : forall P W,
   in_fragment P = true -> tb_shape P = true -> laid_b W P = true ->
-  exists os', Permutation (nd (bind_file P)) os' /\ Forall2 (occ_agrees_laid P) (fi_occs (analyse P)) os'.
-Proof. exact traverse_bind_core_laid. Qed.
+  exists os', Permutation (nd (bind_file P)) os' /\ Forall2 (occ_agrees_classA P) (fi_occs (analyse P)) os'.
+Proof. exact traverse_bind_core_classA. Qed.
 Print Assumptions C06_traversal_is_binder_laid.
 
 Theorem C06_refs_local_laid_partial : forall P W w f name line col v o,
-  in_fragment P = true -> tb_shape P = true -> laid_b W P = true -> no_funcstat P name = true ->
+  in_fragment P = true -> tb_shape P = true -> laid_b W P = true ->
   classA_ok (bind_file P) name = true ->
   decl_layout_ok (bind_file P) name (v_loc v) = true ->
   resolve_at w f (analyse P) name line col = TLocal v ->
   In o (bind_file P) -> s_bind o = BLocal (v_loc v) ->
   exists l, references_at MRefs w f (analyse P) name line col = Some l /\
             forall x, In x l <-> In x (spec_refs [(f, bind_file P)] f o).
-Proof. exact (refs_local_same_var_laid_in MRefs). Qed.
+Proof. exact (refs_local_same_var_classA MRefs). Qed.
 Print Assumptions C06_refs_local_laid_partial.
 
 Example C06_laid_guards_nonvacuous :
   let P := chunk_of src_ok in
   in_fragment P = true /\ tb_shape P = true /\ laid_b 1000%Z P = true /\
-  forallb (fun s => no_funcstat P (s_name s)) (bind_file P) = true.
+  forallb (fun s => classA_ok (bind_file P) (s_name s)) (bind_file P) = true.
 Proof. vm_compute. repeat split; reflexivity. Qed.
